@@ -334,7 +334,11 @@ def finish(pid, tier, seed, m, problems, wall, nshards):
     from vt.table import AMBIENT
     if pid in AMBIENT:
         required.append('ambient:tests-passed')
-    missing = [r for r in required if m['reach'].get(r, 0) + m['clauses'].get(r, 0) == 0]
+    def floor_of(r):
+        # 'name>=N' asks for at least N hits over the whole run (a plain name asks for at least one)
+        name, _, n = r.partition('>=')
+        return name, (int(n) if n else 1)
+    missing = [r for r in required if m['reach'].get(floor_of(r)[0], 0) + m['clauses'].get(floor_of(r)[0], 0) < floor_of(r)[1]]
     inconclusive = []
     if problems:
         inconclusive += problems
